@@ -39,11 +39,11 @@ T["C09"] = ("metamorphic relation monitor over the real bs_*_price functions (ve
 T["C18"] = ("NaN-watch contracts on all bs_* price/delta functions + certain-payoff limit oracle + finiteness monitor on BS/WW hedgers",
             "Every price/delta call (all aliases) is watched for NaN on finite non-negative inputs; a boundary grid (t, sigma in {0, tiny}, |s| from 0 to 50, running max on "
             "both sides, call/put, strikes) is judged against the payoff that is then certain and the limiting deltas; negative inputs must raise ValueError in every function; "
-            "Black-Scholes / Whalley-Wilmott hedgers on simulated paths (incl. Heston paths reaching zero variance) must give finite hedge and P&L. Two known findings.", "4 C18")
+            "Black-Scholes / Whalley-Wilmott hedgers on simulated paths (incl. Heston paths reaching zero variance) must give finite hedge and P&L; far out of the money (log-moneyness down to -2000) prices, deltas, gamma and the Whalley-Wilmott band and hedge must be finite and at their limits. Known findings: lookback delta / Whalley-Wilmott gamma at zero volatility.", "4 C18 / 8.3")
 T["C08"] = ("finite-difference oracle monitor on every Greek of every BS module/function + autogreek on random user pricers",
             "delta/gamma/vega/theta of the four pricing modules and of the functional forms are compared with 4th-order Richardson central differences of the same "
             "object's float64 price over sweeps dominated by t != 1 and K != 1 (incl. barrier already reached with the spot back below); the automatic Greeks are run on "
-            "randomly parameterised smooth pricers under every accepted parameterisation (also with create_graph). The oracle uses three step sizes (two successive extrapolations; their difference is its uncertainty) and judges at the strike value the library holds; arguments must come back unchanged, the same tensor object for spot and running maximum must equal an equal copy, and shared 0-dim / one-element volatility or maturity must give the full-shape values point by point.", "4 C08 / 8.3")
+            "randomly parameterised smooth pricers under every accepted parameterisation (also with create_graph). The oracle uses three step sizes (two successive extrapolations; their difference is its uncertainty) and judges at the strike value the library holds; arguments must come back unchanged, the same tensor object for spot and running maximum must equal an equal copy, and shared 0-dim / one-element volatility or maturity must give the full-shape values point by point; at an exact tie of spot and running maximum the Greeks are compared with backward differences; far out of the money, where the price is flat zero, the Greeks must be finite and negligible.", "4 C08 / 8.3")
 T["C19"] = ("bracketing-condition postcondition on every bisect call + closed-form-inverse and implied-volatility round-trip monitors",
             "Every call of bisect (all aliases, incl. those made by quadratic_cvar, HedgeLoss.cash and implied_volatility) is judged on the real function: result inside the "
             "bracket, a root within precision (direction-aware, noise-aware), evaluation count bounded by max_iter, RuntimeError only when precision is unreachable; analytic "
